@@ -1892,11 +1892,12 @@ class MindsDBParser(Parser):
 
     @_('QUOTE_STRING')
     def quote_string(self, p):
-        return p[0].strip('\'')
+        # exactly one delimiter on each side
+        return p[0][1:-1]
 
     @_('DQUOTE_STRING')
     def dquote_string(self, p):
-        return p[0].strip('\"')
+        return p[0][1:-1]
 
     # for raw query
 
